@@ -113,12 +113,16 @@ func (p *c20IP) Parse(parent ast.Node, block text.Reader, pc parser.Context) ast
 }
 
 type c20PT struct {
-	name string
-	log  *[]string
+	name  string
+	strip bool // consumes every line of the paragraph but leaves the node where it is
+	log   *[]string
 }
 
 func (p *c20PT) Transform(node *ast.Paragraph, reader text.Reader, pc parser.Context) {
 	*p.log = append(*p.log, p.name)
+	if p.strip {
+		node.Lines().Clear()
+	}
 }
 
 type c20AT struct {
@@ -224,7 +228,7 @@ func (c c20Cfg) build(log *[]string) goldmark.Markdown {
 		case "inline":
 			po = parser.WithInlineParsers(util.Prioritized(get(k.Name, func() any { return &c20IP{name: k.Name, accept: k.Script == 1, wander: k.Script == 2, log: log} }), k.Prio))
 		case "paragraph":
-			po = parser.WithParagraphTransformers(util.Prioritized(get(k.Name, func() any { return &c20PT{name: k.Name, log: log} }), k.Prio))
+			po = parser.WithParagraphTransformers(util.Prioritized(get(k.Name, func() any { return &c20PT{name: k.Name, strip: k.Script == 1, log: log} }), k.Prio))
 		case "ast":
 			po = parser.WithASTTransformers(util.Prioritized(get(k.Name, func() any { return &c20AT{name: k.Name, log: log} }), k.Prio))
 		case "render":
@@ -372,6 +376,11 @@ func modelParagraph(c c20Cfg) []string {
 				break
 			}
 			log = append(log, k.Name)
+			if k.Script == 1 && k.Prio < 100 {
+				// the probe consumed every line: the built-in transformer at 100 then replaces the empty paragraph, which ends
+				// the chain exactly as for a paragraph made of definitions only
+				removed = true
+			}
 		}
 	}
 	return log
@@ -610,9 +619,9 @@ func runC20(r *core.Run) {
 		{"inline", core.Pick(r, []string{"IT1", "IT2", "IT3"}, []string{"IT1", "IT2", "IT3", "IT4"}), 3,
 			[]string{"a$b\n", "$\n", "$$ \\$ $\n", "a\n$\n", "a$b%c\n", "%$%\n"},
 			"inline parsers IT1/IT4 on triggers '$' and '%', IT2 on '$', IT3 on '%', each scripted to accept (consume one byte), decline, or move the reader forward and then decline; the Parse log (parser name and the source offset it was started at) must equal: per unescaped trigger byte, the parsers registered for that byte in ascending priority, each started at that byte, until the first accepts"},
-		{"paragraph", []string{"PT1", "PT2", "PT3"}, 1,
+		{"paragraph", []string{"PT1", "PT2", "PT3"}, 2,
 			[]string{"a\n", "a\n\nb\n", "[l]: /u\n\nb\n"},
-			"paragraph transformers; the Transform log must equal: per paragraph, ascending priority, the built-in reference-definition transformer at 100 ending the chain for a paragraph it removes"},
+			"paragraph transformers, each scripted to leave the paragraph alone or to consume all of its lines (the node stays attached); the Transform log must equal: per paragraph, ascending priority, the built-in reference-definition transformer at 100 ending the chain for a paragraph it removes"},
 		{"ast", []string{"AT1", "AT2", "AT3"}, 1, []string{"a\n"}, "AST transformers; the Transform log must be ascending by priority"},
 		{"render", []string{"NR1", "NR2", "NR3"}, 3, []string{c20RenderDoc},
 			"node renderers registering a function for the probe kind Mid and/or for FencedCodeBlock (built-in HTML renderer at 1000); the output of a tree holding a fenced code block and three wrapper nodes of kinds Low < Mid < High (High above every registered kind; Low and High never registered) must show the smallest-priority function for each kind, and wrappers without a function skipped with their children rendered"},
@@ -697,7 +706,11 @@ func runC20(r *core.Run) {
 							c20Run(s, c2)
 						}
 					}
-					if rn.suffix == "" && c.Comps != nil && c.Comps[0].Via == "options" && (len(c.Comps) < 2 || c.Comps[1].Via == "options") {
+					strips := false
+					for _, k := range c.Comps {
+						strips = strips || (g.name == "paragraph" && k.Script == 1)
+					}
+					if rn.suffix == "" && !strips && c.Comps != nil && c.Comps[0].Via == "options" && (len(c.Comps) < 2 || c.Comps[1].Via == "options") {
 						c20Shared(s, c)
 					}
 				}
@@ -745,7 +758,7 @@ func c20Shared(s *core.Sub, c c20Cfg) {
 		case "inline":
 			return util.Prioritized(&c20IP{name: k.Name, accept: k.Script == 1, wander: k.Script == 2, log: log}, k.Prio)
 		case "paragraph":
-			return util.Prioritized(&c20PT{name: k.Name, log: log}, k.Prio)
+			return util.Prioritized(&c20PT{name: k.Name, strip: k.Script == 1, log: log}, k.Prio)
 		}
 		return util.Prioritized(&c20AT{name: k.Name, log: log}, k.Prio)
 	}
